@@ -116,7 +116,13 @@ func (e *EventStreaming) CreateEventStream(name string, count uint64) *EventStre
 			case <-stop:
 				close(consumer)
 				return
-			case event := <-local:
+			case event, ok := <-local:
+				// "local" is closed together with "stop" when the stream is removed: do not forward the nil
+				// events a closed channel keeps delivering until the select picks the stop case
+				if !ok {
+					close(consumer)
+					return
+				}
 				if seen[event] {
 					continue
 				}
